@@ -160,3 +160,6 @@ add("r20_7_debug_only_check", "C20", "R20.7", "parse_ratio_with_error",
     [("macros/src/parse/ratio.rs", "    let num_val = num_val.ok_or(ParseError::NoDigits)?;\n", "    debug_assert!(!(den_marked && den_val.is_none()));\n    let num_val = num_val.ok_or(ParseError::NoDigits)?;\n")])
 add("r17_5_copy_count", "C17", "R17.5", "clone_from_slice",
     [("integer/src/buffer.rs", "                ptr::copy_nonoverlapping(src.as_ptr(), self.ptr.as_ptr(), src.len());", "                ptr::copy_nonoverlapping(src.as_ptr(), self.ptr.as_ptr(), self.capacity);")])
+
+add("r15_4b_ring_not_copied", "C13", "R15.4b", "Large.1",
+    [("integer/src/modular/repr.rs", "            *ring = src_ring;\n", "            let _ = (ring, src_ring);\n")])
